@@ -1,6 +1,7 @@
 package main
 
 import (
+	"sort"
 	"fmt"
 	"math/big"
 	"strings"
@@ -61,6 +62,18 @@ func deriveTarget(r *rng.R, t *gt.T) *gt.T {
 					if r.Chance(40) {
 						o.Opt = append(o.Opt, nm)
 					}
+				}
+				if r.Chance(50) {
+					// an optional attribute no generated map has, whose own type has optional attributes inside:
+					// the null filled in for it must not carry the annotations
+					inner := &gt.T{K: gt.Obj, Attrs: []gt.Attr{{Name: "d", T: gt.P(gt.Num)}}, Opt: []string{"d"}}
+					et := &gt.T{K: gt.Obj, Attrs: []gt.Attr{{Name: "b", T: gt.P(gt.Str)}, {Name: "c", T: &gt.T{K: gt.List, Elem: inner}}}, Opt: []string{"b"}}
+					if p.Elem.K == gt.Obj && len(p.Elem.Attrs) > 0 && r.Bool() {
+						et = p.Elem.Clone()
+						et.Opt = []string{et.Attrs[r.Intn(len(et.Attrs))].Name}
+					}
+					o.Attrs = append(o.Attrs, gt.Attr{Name: "zz9", T: et})
+					o.Opt = append(o.Opt, "zz9")
 				}
 				*p = *o
 			case 2:
@@ -275,6 +288,10 @@ func c08Pair(c *Ctx, r *rng.R, v cty.Value, tt *gt.T, class string) {
 		c.Fail("C08/nonconforming", fmt.Sprintf("result type %#v does not conform to the requested type", ret.Type()), desc)
 		return
 	}
+	if !ret.Type().Equals(ret.Type().WithoutOptionalAttributesDeep()) {
+		c.Fail("C08/optional-annotation-kept", fmt.Sprintf("result type %#v carries optional-attribute annotations", ret.Type()), desc)
+		return
+	}
 	// (an attribute the target adds as optional is resolved by nothing in the input)
 	if fullyResolved(v) && ret.Type().HasDynamicTypes() && !gt.HasOpt(tt) {
 		c.Fail("C08/unresolved-placeholder", fmt.Sprintf("result type %#v keeps a placeholder the input resolved", ret.Type()), desc)
@@ -316,13 +333,22 @@ func sameValue(a, b cty.Value) bool {
 	}
 	ua, pa := a.UnmarkDeepWithPaths()
 	ub, pb := b.UnmarkDeepWithPaths()
-	if fmt.Sprintf("%#v", pa) != fmt.Sprintf("%#v", pb) && len(pa)+len(pb) > 0 {
+	if len(pa)+len(pb) > 0 {
+		// ValueMarks prints in Go map order: compare the mark sets as sorted lists
+		key := func(x cty.PathValueMarks) string {
+			var ms []string
+			for m := range x.Marks {
+				ms = append(ms, fmt.Sprintf("%#v", m))
+			}
+			sort.Strings(ms)
+			return fmt.Sprintf("%#v %s", x.Path, strings.Join(ms, ","))
+		}
 		ma, mb := map[string]bool{}, map[string]bool{}
 		for _, x := range pa {
-			ma[fmt.Sprintf("%#v %#v", x.Path, x.Marks)] = true
+			ma[key(x)] = true
 		}
 		for _, x := range pb {
-			mb[fmt.Sprintf("%#v %#v", x.Path, x.Marks)] = true
+			mb[key(x)] = true
 		}
 		if len(ma) != len(mb) {
 			return false
